@@ -4,7 +4,49 @@ NOTES = ("Machine-checked proof in Coq 8.16.1 of executable models of pion/turn,
 _PENDING = ["C01", "C02", "C03", "C04", "C05", "C06", "C07", "C08", "C09", "C10", "C12", "C13", "C14", "C15", "C16",
             "C17", "C18", "C19", "C20"]
 
+RELAY_NOTE = "Trusted: Coq kernel; the Go harness (event abstraction: the harness records the credential descriptor, attribute presence/size and relay port it used), pion/stun encoding and MESSAGE-INTEGRITY, Go timers under testing/synctest. One listener/one allocation manager is modelled; TCP relay connections are C16's model."
+
 CHECKS = [
+    {"property_id": "C01",
+     "text": "Coq theorems on Model/Relay.v: send/ChannelData gates (state unchanged; nothing or exactly one datagram from the sender's own relay to the named peer with the same bytes, only with a permission/binding present), no other event emits toward a peer, inductive invariant over all histories and policies that no vetoed or wrong-family peer is ever installed, and that what is installed is unexpired; chk_C01 evaluated on the traces of the real server.",
+     "note": RELAY_NOTE,
+     "technique": "Coq proof (inductive invariants / step characterisation over all histories) + differential correspondence of Model/Relay.v against the real turn.Server under virtual time, property predicate evaluated on the observed traces"},
+    {"property_id": "C02",
+     "text": 'Coq theorems: a datagram at a relayed address changes no state and yields nothing, or exactly one frame to the owner only, via the binding of the exact source else the permission of its IP; only such datagrams ever deliver data; chk_C02 on real traces.',
+     "note": RELAY_NOTE,
+     "technique": "Coq proof (inductive invariants / step characterisation over all histories) + differential correspondence of Model/Relay.v against the real turn.Server under virtual time, property predicate evaluated on the observed traces"},
+    {"property_id": "C03",
+     "text": "Coq theorems: a non-authenticating request is a no-op answered by exactly one error (401/438 challenges), what acceptance implies (handler's key for username/realm, intact integrity, own nonce aged <= 60 minute ticks), non-owner no-op, nonce window lemmas; chk_C03 (credential descriptor vs. observed effect) on real traces with every kind of credential defect.",
+     "note": RELAY_NOTE,
+     "technique": "Coq proof (inductive invariants / step characterisation over all histories) + differential correspondence of Model/Relay.v against the real turn.Server under virtual time, property predicate evaluated on the observed traces"},
+    {"property_id": "C04",
+     "text": "Coq theorems: at most one allocation per 5-tuple in every reachable state; a request leaves every other 5-tuple's allocation the same record and answers only its source; data/peer events change nothing and use only the sender's / owner's allocation; chk_C04 on real traces.",
+     "note": RELAY_NOTE,
+     "technique": "Coq proof (inductive invariants / step characterisation over all histories) + differential correspondence of Model/Relay.v against the real turn.Server under virtual time, property predicate evaluated on the observed traces"},
+    {"property_id": "C05",
+     "text": 'Coq theorems: exactly-once and byte-identical forwarding in both directions and both encapsulations, oversize peer datagrams yield nothing, encapsulations lossless at byte level (C11 codecs); chk_C05 on real traces incl. payloads around 4-byte and 1600-byte boundaries.',
+     "note": RELAY_NOTE,
+     "technique": "Coq proof (inductive invariants / step characterisation over all histories) + differential correspondence of Model/Relay.v against the real turn.Server under virtual time, property predicate evaluated on the observed traces"},
+    {"property_id": "C06",
+     "text": 'Coq theorems: grant rule for all requested values, Allocate/Refresh arm exactly what they report, Refresh 0 deletes, expiry exact (tick keeps iff t < deadline), gone means gone, new allocation starts empty, unexpired invariant; chk_C06 recomputes expiry from the reported LIFETIMEs alone and compares with what exists at instants around every deadline on the real server (virtual time).',
+     "note": RELAY_NOTE,
+     "technique": "Coq proof (inductive invariants / step characterisation over all histories) + differential correspondence of Model/Relay.v against the real turn.Server under virtual time, property predicate evaluated on the observed traces"},
+    {"property_id": "C07",
+     "text": 'Coq theorems: successful CreatePermission/ChannelBind restart the full timeout (permission timeout also on ChannelBind), failed requests change nothing, expiry exact, rebind after expiry; chk_C07 recomputes permission/channel expiry from successes alone.',
+     "note": RELAY_NOTE,
+     "technique": "Coq proof (inductive invariants / step characterisation over all histories) + differential correspondence of Model/Relay.v against the real turn.Server under virtual time, property predicate evaluated on the observed traces"},
+    {"property_id": "C08",
+     "text": 'Coq theorems: bijection and range as an invariant of every reachable state, emitted numbers in range, conflicts rejected with no change, same binding refreshes, out-of-range rejected for all numbers; chk_C08 on real traces.',
+     "note": RELAY_NOTE,
+     "technique": "Coq proof (inductive invariants / step characterisation over all histories) + differential correspondence of Model/Relay.v against the real turn.Server under virtual time, property predicate evaluated on the observed traces"},
+    {"property_id": "C15",
+     "text": 'Coq theorems: every step changes allocations/permissions/channels by exactly the net Created-Deleted callbacks, hence over every history callbacks balance against what exists and pair up when all has ended; chk_C15 on real traces incl. relay errors, Refresh 0, expiry. Sockets, timers and goroutines are observed by the harness only (partial).',
+     "note": RELAY_NOTE,
+     "technique": "Coq proof (inductive invariants / step characterisation over all histories) + differential correspondence of Model/Relay.v against the real turn.Server under virtual time, property predicate evaluated on the observed traces"},
+    {"property_id": "C19",
+     "text": "Coq theorems: every response goes to the request's source with its transaction id and method, Binding/Allocate report truthful addresses and the armed lifetime, retransmission returns the cached success and a different id 437 with no change, 420 path; chk_C19 on real traces.",
+     "note": RELAY_NOTE,
+     "technique": "Coq proof (inductive invariants / step characterisation over all histories) + differential correspondence of Model/Relay.v against the real turn.Server under virtual time, property predicate evaluated on the observed traces"},
     {"property_id": "C10",
      "text": "Coq theorems over every sequence of well-formed frames and every segmentation (read_all = frames), plus the stronger "
              "statement that for arbitrary bytes the read loop's output is a function of the stream alone, progress (>= 4 bytes per "
